@@ -532,6 +532,7 @@ def c07(cases, res):
     lists = chooses = rejected = prefix_lists = 0
     for case in cases:
         sys_ = case_dict(case)
+        strategies = set()
         # the phonetic layout in effect (setup line LAYOUT, `layout k` ops): Hsu (1) and ET26 (5) add the words of a
         # syllable's alternative readings to its one-syllable list ("defined to include that reading's characters")
         layout = 0
@@ -548,6 +549,14 @@ def c07(cases, res):
                 layout = {1: 1, 7: 1, 5: 5}.get(int(s.op[1]), 0)
             o = opts_of(s)
             per = o[7]
+            # a phrase selector keeps the lookup strategy it was created with (at the opening of the list, at j / k):
+            # the strategies in effect at some step since the list was opened
+            if state_of(s) != "Selecting":
+                strategies = set()
+            else:
+                if prev is None or state_of(prev) != "Selecting":
+                    strategies = set()
+                strategies.add(o[11])
             if state_of(s) == "Selecting" and s.obs and s.obs.get("cands", "-") not in ("-", "PANIC"):
                 lists += 1
                 n_s, _, body = s.obs["cands"].partition(":")
@@ -569,14 +578,16 @@ def c07(cases, res):
                         continue
                     key = ".".join(x[1:] for x in syms[b:e])
                     exp = expected_candidates(sys_, user_dict_of(s), key, file_order=capi)
-                    if capi and o[11] == 1:
+                    if capi and 1 in strategies:
                         # "contains every phrase held for exactly the highlighted syllables": under the prefix lookup
                         # the list holds those and the phrases of the other matching keys (what those are is decided
                         # here independently of the model)
                         if any(t not in cands for t in exp):
                             out.append(fail("candidate-list-incomplete", case, i, "range %d-%d lacks %s in %s" % (b, e, [t for t in exp if t not in cands], cands)))
-                        exp = expected_candidates_prefix(sys_, user_dict_of(s), key)
+                        exp_p = expected_candidates_prefix(sys_, user_dict_of(s), key)
                         prefix_lists += 1
+                        if 0 not in strategies or cands[:len(exp_p)] == exp_p:
+                            exp = exp_p
                     if layout in (1, 5) and e - b == 1 and cands[:len(exp)] == exp:
                         # the rest: words of one-syllable keys (the alternative readings; which readings is the
                         # layout's table, compared exactly by the model correspondence), each once
